@@ -38,32 +38,35 @@ func cases(tier string) int {
 // floors measured on the unchanged tree at VERIF_SEED=1..5 (quick), about half of the minimum;
 // only counters that do not depend on whether the known defects are present.
 var quickFloors = map[string]int64{
-	"blocks_enumerated":                   64,
-	"blocks_with_conf_inputs":             20,
-	"blocks_with_conf_outputs":            35,
-	"blocks_without_conf":                 18,
-	"blocks_with_duplicate_vote_evidence": 15,
-	"crash_cases_trie":                    8,
-	"crash_cases_flatkv":                  8,
-	"crash_points":                        1900,
-	"crash_points_forced_order":           1000,
-	"clean_restarts":                      64,
-	"restarts":                            1900,
-	"restart_block_lost":                  1300,
-	"restart_block_survived":              550,
-	"status_rebuilt":                      400,
-	"recovery_crash_points":               1500,
-	"recommits":                           550,
-	"continuations":                       1000,
-	"state_comparisons":                   3500,
-	"keyimages_checked":                   4000,
-	"outputs_checked":                     20000,
-	"txindex_checked":                     18000,
-	"prune_ticks":                         70,
-	"prune_ticks_keep_gt_length":          24,
-	"prune_ticks_keep_lt_length":          23,
-	"prune_chains_with_validator_change":  27,
-	"retained_heights_checked":            130,
+	"blocks_enumerated":                    64,
+	"blocks_with_conf_inputs":              20,
+	"blocks_with_conf_outputs":             35,
+	"blocks_without_conf":                  18,
+	"blocks_with_duplicate_vote_evidence":  15,
+	"crash_cases_trie":                     8,
+	"crash_cases_flatkv":                   8,
+	"crash_points":                         1900,
+	"crash_points_forced_order":            1000,
+	"clean_restarts":                       64,
+	"restarts":                             1900,
+	"restart_block_lost":                   1300,
+	"restart_block_survived":               550,
+	"status_rebuilt":                       400,
+	"recovery_crash_points":                1500,
+	"recommits":                            550,
+	"continuations":                        1000,
+	"state_comparisons":                    3500,
+	"keyimages_checked":                    4000,
+	"outputs_checked":                      20000,
+	"txindex_checked":                      18000,
+	"contract_storage_comparisons_nonzero": 2000,
+	"undo_file_cuts":                       950,
+	"undo_file_variants":                   35,
+	"prune_ticks":                          70,
+	"prune_ticks_keep_gt_length":           24,
+	"prune_ticks_keep_lt_length":           23,
+	"prune_chains_with_validator_change":   27,
+	"retained_heights_checked":             130,
 }
 
 func init() {
